@@ -44,7 +44,10 @@ impl AsRawMsg for Msg {
 
     // at least for now, portus doesn't have to worry about deserializing this
     fn from_raw_msg(_msg: RawMsg) -> Result<Self> {
-        unimplemented!();
+        // only the datapath receives install messages; CCP cannot decode one
+        Err(crate::Error(String::from(
+            "received an install message, which only a datapath can handle",
+        )))
     }
 }
 
